@@ -286,12 +286,12 @@ func (vc *VC) pureCall(st *State, fn *ssa.Function, args []Val) (Val, error) {
 // contracts at call sites
 
 type locTarget struct {
-	name  string
-	sort  string
-	key   string // ref / aid / map ref; "" for scalar globals
-	whole bool   // entire heap array may change
-	cond  string // non-empty: the cell may change only if cond holds (dynamic-type guard)
-	freshOnly bool // with whole: only cells of objects allocated after this point change
+	name      string
+	sort      string
+	key       string // ref / aid / map ref; "" for scalar globals
+	whole     bool   // entire heap array may change
+	cond      string // non-empty: the cell may change only if cond holds (dynamic-type guard)
+	freshOnly bool   // with whole: only cells of objects allocated after this point change
 }
 
 func (vc *VC) contractEnv(c *Contract, args []Val, results []Val, st, old *State) *SpecEnv {
